@@ -107,6 +107,25 @@ def main():
             owner.append(("clock", cid, ob))
             if cid == 1 and ob["errno"] == 0:
                 prev = t
+        # --- clock_res_get: the resolution of the same host clock, EINVAL for unknown identifiers
+        rids = [0, 1, 2, 3, 4, 9, 0xFFFFFFFF, 1, 0]
+        sf = os.path.join(wd, "clkres.txt")
+        open(sf, "w").write("".join("clockres %s %d\n" % (rng.choice("pu"), i) for i in rids))
+        rc, so, se = run([exe, os.path.join(wd, "csb"), sf, "--"], timeout=120, env={"ASAN_OPTIONS": "detect_leaks=0"})
+        rl_ = [json.loads(l) for l in so.splitlines() if l.startswith("{")]
+        for n, cid in enumerate(rids):
+            hr = next((l for l in rl_ if l.get("i") == n + 1 and "hostres" in l), None)
+            ob = next((l for l in rl_ if l.get("i") == n + 1 and "call" in l), None)
+            if hr is None or ob is None:
+                v.deviation("clock:no-observation", {"id": cid, "stderr": se[-300:]})
+                continue
+            ch = wasi.changed(ob)
+            wrote = any(wasi.R1 <= a < wasi.R1 + 8 for a in ch)
+            ns = int.from_bytes(bytes(ch.get(wasi.R1 + k, 0xEE) for k in range(8)), "little") if wrote else 0
+            recs.append({"kind": "clockres", "id": cid if cid < 2 ** 31 else 2 ** 31 - 1, "errno": ob["errno"], "wrote": wrote,
+                         "t": [ns // 10 ** 9, ns % 10 ** 9] if ns < 2 ** 62 else [2 ** 31 - 1, 0], "before": hr["hostres"],
+                         "outside": len([a for a in ch if not wasi.R1 <= a < wasi.R1 + 8])})
+            owner.append(("clockres", cid, ob))
         # --- back-to-back readings of one clock with mixed precisions: the monotonic clock never steps back
         seqs = [(1, [rng.choice([0, 1, 1, 10 ** 7, 10 ** 8, 10 ** 9]) for _ in range(60)]) for _ in range(6 if tier == "quick" else 60)] + \
                [(1, [1, 10 ** 9] * 30), (1, [10 ** 9, 0] * 30), (0, [1, 10 ** 8] * 10)]
@@ -216,6 +235,7 @@ def main():
             kind, a, b = owner[k - 1]
             sig = ("random:%s" % ("fails-above-256-bytes" if a > 256 else "len-%d" % a)) if kind == "random" else \
                   "clock:steps-back" if kind == "clockseq" else \
+                  ("clock:resolution-id-%d" % (a if a < 10 else 99)) if kind == "clockres" else \
                   ("clock:id-%d" % (a if a < 10 else 99)) if kind == "clock" else \
                   {"exit": "exit:%s" % a, "spawn": "spawn:%s" % (a if isinstance(a, str) else "K=%s" % a), "layout": "layout:model"}[kind]
             if kind == "layout":
